@@ -145,6 +145,7 @@ static void COEmcySend(CO_EMCY *emcy, uint8_t err, CO_EMCY_USR *usr, uint8_t sta
     dir  = &node->Dict;
     data = &emcy->Root[err];
 
+    frm.Identifier = CO_EMCY_COBID_OFF;
     (void)CODictRdLong(dir, CO_DEV(0x1014,0), &frm.Identifier);
     if ((frm.Identifier & CO_EMCY_COBID_OFF) != 0) {
         /* EMCY does not exist / is not valid */
